@@ -11,6 +11,17 @@ pub fn ill_conditioned(fl: &Flags, a: f64, b: f64, r: f64) -> R<()> {
     if fl.tol.get() > 0.0 && r.is_finite() && r.abs() < 1e-3 * a.abs().max(b.abs()) { Err(Stop::Unspec("CancellationAfterInexactOperation")) } else { Ok(()) }
 }
 
+/// a discontinuous function applied to an operand that is only known within a tolerance cannot be
+/// decided when the operand lies at the discontinuity
+pub fn at_discontinuity(fl: &Flags, x: f64, kind: &str) -> R<()> {
+    if fl.tol.get() == 0.0 || !x.is_finite() { return Ok(()); }
+    let eps = 1e-6 * (1.0 + x.abs());
+    let near_int = (x - x.round()).abs() < eps;
+    let near_half = ((x - 0.5) - (x - 0.5).round()).abs() < eps;
+    let hit = match kind { "int" => near_int, "half" => near_half, "zero" => x.abs() < eps, _ => false };
+    if hit { Err(Stop::Unspec("DiscontinuityAfterInexactOperation")) } else { Ok(()) }
+}
+
 pub struct F64Sem {
     pub ph: f64,
     pub flags: Flags,
@@ -21,6 +32,7 @@ impl F64Sem {
 
 pub fn factorial_f64(x: f64, fl: &Flags) -> R<f64> {
     if x.is_nan() { return Err(Stop::Unspec("FactorialOfNaN")); }
+    at_discontinuity(fl, x, "int")?;
     if x >= 0.0 && x.fract() == 0.0 {
         if x > 170.0 { return Ok(f64::INFINITY); }
         let n = x as u64;
@@ -98,6 +110,7 @@ pub fn agg_f64(func: &str, a: &[f64], fl: &Flags) -> R<f64> {
 /// one-argument functions shared by f64 / number (value semantics on doubles)
 pub fn fn1_f64(func: &str, x: f64, fl: &Flags) -> R<f64> {
     let t = |v: f64| -> R<f64> { fl.inexact(TOL); Ok(v) };
+    match func { "Floor" | "Ceil" | "Truncate" => at_discontinuity(fl, x, "int")?, "Round" => at_discontinuity(fl, x, "half")?, "Sign" => at_discontinuity(fl, x, "zero")?, _ => {} }
     match func {
         "Abs" => Ok(x.abs()),
         "Floor" => Ok(x.floor()),
@@ -146,8 +159,8 @@ impl Sem for F64Sem {
             "fact" => factorial_f64(a, &self.flags),
             "deg" => { self.flags.inexact(TOL); Ok(a * (std::f64::consts::PI / 180.0)) }
             "rad" => { self.flags.inexact(TOL); Ok(a * (180.0 / std::f64::consts::PI)) }
-            "floor" => Ok(a.floor()),
-            "ceil" => Ok(a.ceil()),
+            "floor" => { at_discontinuity(&self.flags, a, "int")?; Ok(a.floor()) }
+            "ceil" => { at_discontinuity(&self.flags, a, "int")?; Ok(a.ceil()) }
             _ => Err(Stop::Unspec("UnknownUnary")),
         }
     }
